@@ -6,7 +6,8 @@ RULE = ("CAB: structure-aware generator (0-5 folders, data 0..1000 bytes, no res
         "1..6144 bytes, already carrying one or two signatures, irregular OffsetFiles/TotalSize) plus a malformed stream (boundary values in "
         "every header, reserve and signature-header field the parser reads, truncation at field boundaries, appended bytes); ops: digest "
         "(hash stream + Patched header), sign (MakePatch + real patch application + re-digest), resign (two rounds vs one), locate "
-        "(cabfile.Parse signature), realsign (signer module with real keys, two rounds, real verifier), mutate (C02). "
+        "(cabfile.Parse signature), specdigest (C05: hash of the SPECIFICATION's digest input of the signed form vs. the real imprint; also on "
+        "functest/packages/dummy.cab), realsign (signer module with real keys, two rounds, real verifier), mutate (C02). "
         "Non-trivial = distinct op on which the model gets past the magic check.")
 TRUSTED = ["Relic.Model.Cab is hand-written from lib/cabfile/cabfile.go and lib/authenticode/cabfile.go; tied by differential execution",
            "SHA-256 of the model's byte stream is computed by the check (hashlib), never in Lean: hashes are parameters"]
@@ -24,6 +25,8 @@ def canon_model(op, mres):
     if f[1] == "digest" and mres.startswith("ok stream="):
         parts = mres.split(" ")
         return "ok imprint=%s %s" % (hashlib.sha256(_b(parts[1][len("stream="):])).hexdigest(), " ".join(parts[2:]))
+    if f[1] == "specdigest" and mres.startswith("ok spec stream="):
+        return "ok spec imprint=" + hashlib.sha256(_b(mres[len("ok spec stream="):])).hexdigest()
     return mres
 
 
@@ -31,6 +34,9 @@ def equiv(op, il, mres):
     if il == mres:
         return True
     f = op.split()
+    if f[1] == "specdigest":
+        # "ok skip": irregular layout, outside the class of cab_digest_eq_spec (F35) - nothing to compare
+        return mres == "ok skip" and il.startswith("ok spec imprint=")
     if f[1] == "mutate" and il.startswith("ok") and mres.startswith("ok"):
         a, b = il.split(" ")[1:], mres.split(" ")[1:]
         return len(a) == len(b) and all(x == y or y == "any" for x, y in zip(a, b))
@@ -72,6 +78,10 @@ def _kv(tag):
 
 def predicate(prop, op, il, mres, tag):
     f = op.split()
+    if f[1] == "specdigest" and prop == "C05" and mres.startswith("ok spec") and mres != "ok skip" and il != mres:
+        return ("Relic.Props.C05.cab_digest_eq_spec", mres,
+                "the imprint the real code computed is not the hash of the specification's digest input (Relic.Spec.CabDigest) "
+                "of the signed form of this regular cabinet: " + il)
     if il.startswith("crash") or il.startswith("not-run"):
         return ("Relic.Props.%s (cab)" % prop, mres, "implementation process died")
     if il.startswith("panic") and f[1] != "mutate":
